@@ -268,6 +268,21 @@ def jobs_for(tier, rng):
                 jobs.append((egg, reaxis(t, sweepflip=mirror), tol, "any", "egg->%s axes-not-turned" % tn))
             else:
                 jobs.append((egg, reaxis(t, swap=True, sweepflip=mirror), tol, "any", "egg->%s axes-turned-wrongly" % tn))
+    # shorthand after a curve of the OTHER family (s after q, t after c): no reflection, the first control
+    # point is the current point (SVG 8.3.6/8.3.7); the explicit spelling of the same outline, translated,
+    # must be found
+    mixed = {
+        "q-then-s": ([((0, 0), [("Q", (2, 3), (4, 0)), ("C", (4, 0), (7, 2), (9, 0)), ("L", (4, -5)), ("Z",)])],
+                     "M0,0 q2,3 4,0 s3,2 5,0 l-5,-5 z"),
+        "c-then-t": ([((0, 0), [("C", (1, 2), (3, 2), (4, 0)), ("Q", (4, 0), (9, 1)), ("L", (4, -5)), ("Z",)])],
+                     "M0,0 c1,2 3,2 4,0 t5,1 l-5,-6 z"),
+    }
+    for n, (sh, dsh) in mixed.items():
+        for tn in ("translate", "translate2"):
+            t = apply(TRANSFORMS[tn], sh)
+            for tol in tols:
+                jobs.append((sh, t, tol, "found", "%s shorthand->%s explicit" % (n, tn), dsh, d_of(t)))
+                jobs.append((t, sh, tol, "found", "%s explicit->%s shorthand" % (n, tn), d_of(t), dsh))
     # the same NUMBERS under relative letters are another outline (vertices are running sums): whatever is
     # reported for (absolute spelling, relative spelling of the same numbers) must map onto that outline
     for n in names:
